@@ -304,6 +304,140 @@ pub fn run(ctx: &Ctx) -> Report {
         }
     });
     rep.merge(r);
+
+    // ---- whole sessions: several binary resultsets of different widths on one connection (text
+    //      queries in between), every cell a must-accept (Rust type, column) pair: whatever the
+    //      writer keeps between rows, resultsets and commands, each number must arrive exactly
+    let n = if ctx.miri { 2 } else { ctx.n(1500, 60_000) };
+    let r = par_cases(ctx, "C15", "sessions", n, |rng, i, rep| {
+        let nsets = if ctx.miri { 2 } else { rng.range(2, 6) as usize };
+        let mut cmds = Vec::new();
+        let mut scripts = Vec::new();
+        let mut wants: Vec<Option<Vec<Vec<i128>>>> = Vec::new(); // per reply-expecting exchange
+        let mut widths = Vec::new();
+        for k in 0..nsets {
+            let nc = *rng.pick(&[1usize, 2, 3, 5, 6, 7, 8, 9, 14, 15, 16, 20, 30]);
+            widths.push(nc);
+            let cols: Vec<(usize, bool)> = (0..nc).map(|_| (rng.usize(6), rng.bool())).collect();
+            let columns: Vec<Column> = cols.iter().enumerate().map(|(c, &(ci, u))| Column { table: "t".into(), column: format!("c{}", c), coltype: COLS[ci].0, colflags: if u { ColumnFlags::UNSIGNED_FLAG } else { ColumnFlags::empty() } }).collect();
+            let nr = rng.range(1, 3) as usize;
+            let mut ops = vec![QOp::Start(0)];
+            let mut want = Vec::new();
+            for _ in 0..nr {
+                let mut cells = Vec::new();
+                let mut wr = Vec::new();
+                for &(ci, u) in &cols {
+                    let (_, oblig) = col_ranges(COLS[ci].1, u);
+                    // fixed-width sources whose whole range the column holds, or a pointer-sized value in range
+                    let fixed: Vec<Src> = [Src::U8, Src::I8, Src::U16, Src::I16, Src::U32, Src::I32, Src::U64, Src::I64].into_iter().filter(|s| src_range(*s).0 >= oblig.0 && src_range(*s).1 <= oblig.1).collect();
+                    let src = if !fixed.is_empty() && rng.chance(3, 4) { *rng.pick(&fixed) } else if u { Src::Usize } else { Src::Isize };
+                    let (slo, shi) = src_range(src);
+                    let v = gen_int_in(rng, slo.max(oblig.0), shi.min(oblig.1));
+                    wr.push(v);
+                    cells.push(Cell::val(match src {
+                        Src::U8 => V::U8(v as u8),
+                        Src::I8 => V::I8(v as i8),
+                        Src::U16 => V::U16(v as u16),
+                        Src::I16 => V::I16(v as i16),
+                        Src::U32 => V::U32(v as u32),
+                        Src::I32 => V::I32(v as i32),
+                        Src::U64 => V::U64(v as u64),
+                        Src::I64 => V::I64(v as i64),
+                        Src::Usize => V::Usize(v as usize),
+                        _ => V::Isize(v as isize),
+                    }));
+                }
+                want.push(wr);
+                if rng.bool() {
+                    ops.push(QOp::Row(cells, if rng.bool() { RowForm::Owned } else { RowForm::Borrowed }));
+                } else {
+                    for c in cells {
+                        ops.push(QOp::Col(c));
+                    }
+                    ops.push(QOp::EndRow);
+                }
+            }
+            ops.push(QOp::Finish);
+            cmds.push(Cmd::prepare(format!("p{}", k).as_bytes()));
+            scripts.push(Script::PrepOk { id: k as u32 + 1, params: vec![], cols: columns.clone() });
+            wants.push(None);
+            cmds.push(Cmd::execute(k as u32 + 1, &[], false));
+            scripts.push(Script::Q(QProg { colsets: vec![columns], ops, on_err: OnErr::Drop }));
+            wants.push(Some(want));
+            if rng.chance(1, 3) {
+                cmds.push(Cmd::query(b"between"));
+                scripts.push(Script::Q(QProg::completed(1, 0)));
+                wants.push(None);
+            }
+        }
+        let obs = run_case(&Case::new(cmds, scripts));
+        rep.evaluations += 1;
+        if harness_panic(&obs, rep) {
+            return;
+        }
+        for w in widths.windows(2) {
+            rep.counters.class(format!("resultset widths {} then {} (bitmap bytes {} then {})", w[0], w[1], (w[0] + 9) / 8, (w[1] + 9) / 8));
+        }
+        let d = || J::obj().set("resultset_widths_in_order", widths.iter().map(|&w| J::from(w)).collect::<Vec<_>>()).set("outcome", obs.outcome.describe());
+        if i == 0 {
+            rep.sample(d());
+        }
+        if let Outcome::Panic { file, line, msg } = &obs.outcome {
+            rep.violations.push(viol("C15", format!("C15 session {}", panic_signature(file, *line, msg)), format!("must-accept integer cells made run_on panic: {}", obs.outcome.describe()), d()));
+            return;
+        }
+        if let Some(bad) = obs.log.cbs.iter().flat_map(|c| c.results.iter()).find(|r| r.err.is_some()) {
+            rep.violations.push(viol("C15", format!("C15 session refused-must-accept {}", bad.op), format!("{} refused a must-accept integer cell: {:?}", bad.op, bad.err), d()));
+            return;
+        }
+        let dec = match decode_output(&obs) {
+            Ok(x) => x.2,
+            Err(e) => {
+                rep.violations.push(viol("C15", "C15 session bad-framing".into(), e, d()));
+                return;
+            }
+        };
+        for (k, w) in wants.iter().enumerate() {
+            let Some(w) = w else { continue };
+            let Some(crate::wire::Resp::Parts(parts)) = dec.resps.get(2 + k) else {
+                rep.violations.push(viol("C15", "C15 session undecodable-response".into(), format!("exchange #{} does not decode: {:?}", 2 + k, dec.stop), d()));
+                return;
+            };
+            let Some(crate::wire::Part::Rows { rows, cols: defs, .. }) = parts.first() else {
+                rep.violations.push(viol("C15", "C15 session not-a-resultset".into(), format!("exchange #{} is not a resultset", 2 + k), d()));
+                return;
+            };
+            let adv: Vec<(u8, u16)> = defs.iter().map(|c| (c.typ, c.flags)).collect();
+            if rows.len() != w.len() {
+                rep.violations.push(viol("C15", "C15 session row-count".into(), format!("exchange #{}: {} rows decoded, {} written", 2 + k, rows.len(), w.len()), d()));
+                return;
+            }
+            for (ri, (raw, wr)) in rows.iter().zip(w.iter()).enumerate() {
+                match wire::decode_bin_row(raw, &adv) {
+                    Ok(vals) => {
+                        let got: Vec<Option<i128>> = vals.iter().map(|v| if let BinVal::Int(x) = v { Some(*x) } else { None }).collect();
+                        let wantv: Vec<Option<i128>> = wr.iter().map(|x| Some(*x)).collect();
+                        if got != wantv {
+                            let ci = got.iter().zip(wantv.iter()).position(|(a, b)| a != b).unwrap_or(0);
+                            rep.violations.push(viol("C15", "C15 session altered-in-row".into(), format!("resultset #{} ({} columns, after widths {:?}) row {} column {}: wrote {:?}, client decoded {:?}", k, adv.len(), &widths, ri, ci, wantv.get(ci), got.get(ci)), d()));
+                            return;
+                        }
+                        rep.counters.inc("rows_compared");
+                        rep.counters.add("session_cells_compared", got.len() as u64);
+                    }
+                    Err(e) => {
+                        rep.violations.push(viol("C15", "C15 session row-undecodable".into(), format!("resultset #{} ({} columns, after widths {:?}) row {}: {}", k, adv.len(), &widths, ri, e), d()));
+                        return;
+                    }
+                }
+            }
+        }
+        rep.counters.inc("sessions_compared");
+    });
+    rep.merge(r);
+    if ctx.strict() {
+        rep.require("sessions_compared", 100);
+    }
     if ctx.strict() {
         rep.require("accepted_exact", 10_000);
         rep.require("refused_err", 1000);
